@@ -85,7 +85,7 @@ def gen_cfg(rng, nadd=None, bad_prog=False, rich=True):
     return algs, allp
 
 
-def gen_script(rng, algs, allp, n=None, addrs=None, adversarial=0.1, faults=0.05, stop=0.02):
+def gen_script(rng, algs, allp, n=None, addrs=None, adversarial=0.1, faults=0.05, stop=0.02, miscount=0.04):
     n = n or rng.randrange(1, 31)
     if addrs is None:
         # 0 is `Addr::default()` for the scripted transport: an address like any other
@@ -122,6 +122,13 @@ def gen_script(rng, algs, allp, n=None, addrs=None, adversarial=0.1, faults=0.05
             nmb = nm.encode()[:64]
             return "CR.%d.%d.%d.%d.%d.%d.%d.%s" % (sid, rng.getrandbits(32), rng.choice([1460, 9000]), rng.getrandbits(32),
                                                   rng.getrandbits(16), rng.getrandbits(32), rng.getrandbits(16), hx(nmb))
+        if rng.random() < miscount * 2 and allp:
+            # a well-framed measurement for a live flow of a live program whose COUNT WORD does not match the values it carries
+            sid = sid_for(a, "live")
+            nv = rng.choice([0, 1, 1, 2, 3])
+            cnt = rng.choice([nv + 1, nv + 2, 3, 5, 255, max(nv - 1, 0), 1])
+            vals = ";".join(str(rng.choice([0, 7, 2**63, rng.getrandbits(20)])) for _ in range(nv)) or "-"
+            return "MC.%d.u:%s.%d.%s" % (sid, rng.choice(allp), cnt, vals)
         if r < 0.9 - adversarial:
             k = rng.random()
             sid = sid_for(a, "live") if k < 0.75 else sid_for(a, "closed") if k < 0.85 else rng.choice([9, 99, 2**31])
